@@ -471,9 +471,28 @@ def obligations(tier):
     for a, b in pairs:
         obs.append(Ob(f"sym.conj.{a}.{b}", "vf.props.c13:int_conj", {"OP": a, "OP2": b}, engine="crosshair", timeout=T,
                       bounds="two int columns x 2 rows, conjunction of two conditions", weight=4))
+    obs.append(Ob("sym.ts_bound_roundtrip", "vf.props.c13:ts_bound_roundtrip", {}, engine="crosshair", timeout=40 if tier == "quick" else 600, allow_inconclusive=True,
+                  bounds="timestamp bound with symbolic microsecond (0..999999) and second: decode(encode(v)) == v (real json); "
+                         "verdict if CrossHair's datetime model finishes, else bug-hunting only", weight=3))
     kinds = ["float", "int", "str", "timestamp"] if tier == "quick" else ["float", "int", "str", "float32", "date", "timestamp", "bool"]
     for kind in kinds:
         obs.append(Ob(f"e2e.grid_{kind}", "vf.props.c13:e2e_grid", {"kind": kind}, engine="native", timeout=300,
                       bounds=f"concrete boundary grid, {kind} column, all operators, real pyarrow/json/fastavro/local backend",
                       weight=2))
     return obs
+
+
+# ---- bound round trip of temporal values with a SYMBOLIC sub-second part (real _encode_bound/_decode_bound, real json) --------
+def ts_bound_roundtrip(us: int, sec: int) -> bool:
+    """
+    pre: 0 <= us <= 999999 and 0 <= sec <= 59
+    post: _
+    """
+    import datetime as _dt
+    v = _dt.datetime(2024, 1, 1, 12, 0, sec, us)
+    back = FileManager._decode_bound(FileManager._encode_bound(v))
+    return isinstance(back, _dt.datetime) and back == v and back.microsecond == us
+
+
+def ts_bound_roundtrip__samples():
+    return [(0, 0), (1, 0), (999, 59), (1000, 1), (1750, 0), (999999, 59), (123456, 30)]
